@@ -80,6 +80,10 @@ Step(e) ==
                           ELSE IF \E i \in F : ~FlagsOK(lastcall, e.items[i], bidx(i)) THEN "failed_flags_not_the_nan_rows"
                           ELSE IF \E i \in F : e.items[i].hasfun /\ Cardinality({r \in 1..cfg.R : ~e.items[i].failed[r]}) < cfg.minsucc
                                THEN "functions_reported_below_min_success"
+                          \* (strict configurations: no filter or estimator can be left empty while the threshold is met)
+                          ELSE IF cfg.strict /\ (\E i \in F : ~e.items[i].hasfun
+                                     /\ Cardinality({r \in 1..cfg.R : ~e.items[i].failed[r]}) >= (IF cfg.minsucc > 1 THEN cfg.minsucc ELSE 1))
+                               THEN "functions_withheld_although_enough_realizations_succeeded"
                           ELSE IF cfg.maxfun > 0 /\ nfun + Cardinality(F) > cfg.maxfun + cfg.batch - 1 THEN "budget_exceeded"
                           ELSE "ok"
             /\ nfun' = nfun + Cardinality(F) /\ lastfail' = fails
